@@ -18,7 +18,7 @@ RULE = ('cases: histories (8..50 steps) of stream openings in both directions, c
 ASSUMPTIONS = ['local SETTINGS frames in this check change only MAX_CONCURRENT_STREAMS after the handshake ACK '
                '(C11 covers acknowledgement matching)']
 TIERS = {'quick': {'cases': 4000, 'size': 300},
-         'thorough': {'cases': 150000, 'size': 400}}
+         'thorough': {'cases': 900000, 'size': 400}}
 LIMITS = [0, 1, 2, 3, 100]
 
 
